@@ -343,6 +343,12 @@ def final_path_writers(ck: Check, rule: str, final: str, allowed: Dict[str, str]
         for ln, what, node in _path_writers(m.tree, final, fold):
             fn = owner.get(id(node), m.name)
             key = "%s:%s" % (fn, what.split("(")[0])
+            if key not in allowed and fn in ck.repo.functions and ck.walker.transparent(fn):
+                # a helper split off later from the function the exception was granted to
+                for k_ in allowed:
+                    f_, _, w_ = k_.rpartition(":")
+                    if w_ == what.split("(")[0] and only_called_from(ck, fn, {f_}, 0):
+                        key = k_
             if key in allowed:
                 ck.note("%s: %s %s — %s" % (rule, short(fn), what, allowed[key]))
                 continue
